@@ -9,8 +9,14 @@ MODE=$1; D=$(readlink -f "$2"); shift 2
 export GOFLAGS=-mod=mod GOPROXY=off GOSUMDB=off GOTOOLCHAIN=local
 M=/tmp/vseed-$$
 git -C /repo worktree add -q --detach $M HEAD || exit 3
-trap 'git -C /repo worktree remove --force $M >/dev/null 2>&1' EXIT
-if ! git -C $M apply "$D/patch.diff" 2>/dev/null; then
+trap 'git -C /repo worktree remove --force $M >/dev/null 2>&1; rm -f /tmp/vseed-$$.applied' EXIT
+if git -C $M apply "$D/patch.diff" 2>/dev/null; then
+  :
+elif [ -f "$D/patch.rebased.diff" ] && git -C $M apply "$D/patch.rebased.diff" 2>/dev/null; then
+  # the site was touched by a later fix; the same change, re-made on the current code
+  echo "using the rebased patch"
+  cp "$D/patch.rebased.diff" /tmp/vseed-$$.applied
+else
   # the site was touched by a later fix: fall back to the commit the change was made against
   BASE=$(python3 -c "import json;print(json.load(open('$D/meta.json')).get('base_commit',''))")
   [ -n "$BASE" ] || { echo "PATCH DOES NOT APPLY"; exit 3; }
@@ -28,7 +34,7 @@ if [ "$MODE" = verify ]; then
   echo "--- demo with change (must fail): $DEMOCMD"
   (cd $M && eval "$DEMOCMD" 2>&1 | tail -15);
   (cd $M && eval "$DEMOCMD" >/dev/null 2>&1) && { echo "DEMO PASSES WITH CHANGE"; exit 3; }
-  git -C $M apply -R "$D/patch.diff"
+  if [ -f /tmp/vseed-$$.applied ]; then git -C $M apply -R /tmp/vseed-$$.applied; else git -C $M apply -R "$D/patch.diff"; fi
   echo "--- demo without change (must pass)"
   (cd $M && eval "$DEMOCMD" 2>&1 | tail -5)
   (cd $M && eval "$DEMOCMD" >/dev/null 2>&1) || { echo "DEMO FAILS WITHOUT CHANGE"; exit 3; }
